@@ -308,7 +308,7 @@ def generate(src):
         d['pending_for_dead'] = ForAll([j], Implies(And(0 <= j, j < NW, g['needs'][j]), And(g['head'] <= g['qpos'](j), g['qpos'](j) < g['tail'], st.heap.cls_of[g['hist'][g['qpos'](j)]] == RONE,
                                      st.heap.field('worker_num')[g['hist'][g['qpos'](j)]] == Val.intv(j))))
         return d
-    st = init_state(""); base_heap(st); st.env = {'self': PyObj(self_a, 'pm'), RESTARTS: PyInt(Int('restarts'))}; st.ghost['restarts_mirror'] = Int('restarts')
+    st = init_state(""); base_heap(st); st.env = {'self': PyObj(self_a, 'pm'), RESTARTS: PyInt(Int('restarts'))}; st.ghost['restarts_mirror'] = Int('restarts'); bind_prelude_locals(st.env, start.body[:start.body.index(outer)])
     st.ghost['needs'] = Const('needs', I2B); st.ghost['qpos'] = Function('qpos', IntSort(), IntSort()); st.ghost['seen_dead'] = K(IntSort(), False)
     st.ghost['reloaded'] = Const('reloaded_from_previous_tick', I2B)          # whatever the de-duplication set held at the end of the previous tick
     st.pc += [NW >= 0, Distinct(self_a, args_a, wl_a)]; assume(st, OuterInv(st))
@@ -341,7 +341,7 @@ def generate(src):
     # =====================================================================  DRAIN ITERATION
     # ---------- verify one arbitrary iteration of the DRAIN loop body (inner while), from the drain invariant
     start = PM['start']; outer = [s for s in start.body if isinstance(s, ast.While)][0]; drain = [s for s in outer.body if isinstance(s, ast.While)][0]
-    st = init_state(""); base_heap(st); st.env = {'self': PyObj(self_a, 'pm'), RESTARTS: PyInt(Int('restarts'))}; st.ghost['restarts_mirror'] = Int('restarts')
+    st = init_state(""); base_heap(st); st.env = {'self': PyObj(self_a, 'pm'), RESTARTS: PyInt(Int('restarts'))}; st.ghost['restarts_mirror'] = Int('restarts'); bind_prelude_locals(st.env, start.body[:start.body.index(outer)])
     st.ghost['reloaded'] = Const('reloaded', I2B)
     st.pc += [NW >= 0, Distinct(self_a, args_a, wl_a)]; assume(st, Inv_drain(st))
     exits = collections.Counter()
